@@ -1,6 +1,7 @@
 package main
 
 import (
+	"sync/atomic"
 	"bytes"
 	"context"
 	"fmt"
@@ -174,12 +175,14 @@ func discharge(dir string, idx int, vc *VC, o *Obligation, timeoutS int, waitAll
 		return
 	}
 	if o.Expect == "sat" && timeoutS > 3 {
-		timeoutS = 3 // vacuity covers only need "not refuted quickly"
+		timeoutS = 2 // vacuity covers only need "not refuted quickly"
 		if o.NoSlice {
-			timeoutS = 10
+			timeoutS = 8
 		}
 	}
+	tq := time.Now()
 	q := queryText(vc, o)
+	atomic.AddInt64(&queryGenNs, int64(time.Since(tq)))
 	file := filepath.Join(dir, fmt.Sprintf("q%05d.smt2", idx))
 	if err := os.WriteFile(file, []byte(q), 0o644); err != nil {
 		o.Status = "engine-error"
@@ -189,14 +192,18 @@ func discharge(dir string, idx int, vc *VC, o *Obligation, timeoutS int, waitAll
 	o.Aux = file
 	ctx, cancel := context.WithCancel(context.Background())
 	defer cancel()
-	resCh := make(chan solverResult, len(solvers))
-	for _, sp := range solvers {
+	use := solvers
+	if o.Expect == "sat" && !o.NoSlice && len(solvers) > 2 {
+		use = solvers[:2] // covers: the two z3 versions (cvc5 answers unknown on quantified satisfiable queries)
+	}
+	resCh := make(chan solverResult, len(use))
+	for _, sp := range use {
 		sp := sp
 		go func() { resCh <- runOne(ctx, sp, file, timeoutS) }()
 	}
 	var all []solverResult
 	var decisive *solverResult
-	for range solvers {
+	for range use {
 		r := <-resCh
 		all = append(all, r)
 		if (r.answer == "unsat" || r.answer == "sat") && decisive == nil {
@@ -302,6 +309,8 @@ func getModel(file, solver string, timeoutS int) string {
 }
 
 // dischargeAll runs all obligations with bounded parallelism.
+var queryGenNs int64
+
 func dischargeAll(dir string, items []oblItem, timeoutS int, waitAll bool) {
 	seenVC := map[*VC]bool{}
 	for _, it := range items {
@@ -311,7 +320,7 @@ func dischargeAll(dir string, items []oblItem, timeoutS int, waitAll bool) {
 		}
 	}
 	var wg sync.WaitGroup
-	sem := make(chan struct{}, 8)
+	sem := make(chan struct{}, 10)
 	for i := range items {
 		wg.Add(1)
 		sem <- struct{}{}
